@@ -68,7 +68,10 @@ import math  # noqa: E402
 import struct  # noqa: E402
 
 
-def _check(T, v, local_step):
+def _check(T, v, local_step, nearest=False):
+    """nearest=True (codecs that round to the nearest raw value): the error is strictly below one step - so
+    an exactly representable input comes back exactly, not one step off - and nothing further than half a
+    step outside the range is accepted."""
     lo, hi = physical_range(T)
     try:
         p = T.to_knx(v)
@@ -79,6 +82,10 @@ def _check(T, v, local_step):
     assert all(isinstance(o, int) and 0 <= o <= 255 for o in p.value), (T.__name__, v, p.value, "not octets")
     d = T.from_knx(p)
     st = local_step(p)
+    if nearest:
+        assert abs(d - v) < st, (T.__name__, v, d, st, "not less than one resolution step")
+        assert lo - st / 2 * (1 + 1e-9) <= v <= hi + st / 2 * (1 + 1e-9), (T.__name__, v, "outside the range but encoded")
+        return
     assert abs(d - v) < st * (1 + 1e-9) + 1e-12, (T.__name__, v, d, st)
     assert lo - st * (1 + 1e-9) <= v <= hi + st * (1 + 1e-9), (T.__name__, v, "outside the range but encoded")
 
@@ -95,7 +102,7 @@ def _scaled_cases(tier, T):
 
 @standin("C09", cases=_scaled_cases, family=lambda: [dict(T=c) for c in numeric_classes() if module_of(c) == "dpt_8"], kind="enum-native", exhaustive=True, bound="DPT 8.x (2 octet signed, resolution 0.01/1/10/100): every raw value -32771..32770 x 7 sub-step offsets, plus huge values")
 def two_byte_signed_scaled(T, v):
-    _check(T, v, lambda p: T.resolution)
+    _check(T, v, lambda p: T.resolution, nearest=True)
 
 
 def _percent_cases(tier, T):
